@@ -139,3 +139,44 @@ def cost_model(ctx, rule):
         ok = is_len and "as_bytes" in names + ([l.kids[0].strip().a["name"]] if l.kids and l.kids[0].strip().k == "call" else []) and not any(n in names for n in ("to_string_lossy", "chars", "count", "to_str", "encode_wide", "len_utf8"))
         ok = ok and any(x.k == "arg" for x in l.walk())
     ctx.ob(rule, "cost=bytes+1", ok, "the per-argument charge must be the argument's length in *bytes* plus one terminator (execve copies bytes; -s is a byte budget); found %s" % o.fmt(), fn=f, how="provenance slice of the return value")
+
+
+def regex_validated_as_written(ctx, rule):
+    """-regex/-iregex: when the pattern handed to the engine is *derived* from the operand (wrapped in a group, anchored),
+    the operand itself must first be compiled as written, in the selected syntax, and its failure must be the
+    constructor's failure. A wrapper can repair a malformed operand: `.*\\)\\(a` inside `\\(?:...\\)` is balanced."""
+    prog = ctx.prog
+    nf = prog.fns.get(C.M + "regex::RegexMatcher::new") if hasattr(C, "M") else None
+    if nf is None:
+        nf = next((f for p, f in prog.fns.items() if p.endswith("find::matchers::regex::RegexMatcher::new")), None)
+    if nf is None:
+        ctx.missing(rule, "RegexMatcher::new")
+        return
+    wo = [(b, t) for b, t in nf.calls() if (t.callee or "").startswith("onig::Regex::with_options") or (t.callee or "").startswith("onig::Regex::new")]
+    raw, derived = [], []
+    for b0, t0 in wo:
+        po0 = prim.expand_single_def_vars(nf, prim.origin_of_operand(nf, t0.args[0])).strip()
+        (raw if po0.k == "arg" and po0.a["name"] == "pattern" else derived).append((b0, t0))
+    if not derived:
+        return      # the operand itself is what gets compiled: nothing to validate separately
+    ok = False
+    why = "%d compile(s) of the operand as written" % len(raw)
+    for rb, rt in raw:
+        nxt = nf.blocks[rt.target].term if rt.target is not None else None
+        propagated = nxt is not None and nxt.k == "call" and nxt.j.get("callee_name") == "branch"
+        if not propagated:
+            # `match`/`if let Err(e) = ... { return Err(..) }`: the Err edge of a switch on the result returns
+            propagated = any(gd["pred"].strip().k == "discr" and any(cn.a.get("bb") == rb for cn in gd["pred"].call_nodes()) for b2, _ in derived for gd in prim.dominating_guards(nf, b2))
+        same_syntax = True
+        if len(rt.args) >= 3 and derived and len(derived[0][1].args) >= 3:
+            # the syntax argument of the validation is not the one that was extended for the wrapper
+            so = prim.origin_of_operand(nf, rt.args[2])
+            same_syntax = not any(cn.a["name"] in ("enable_operators", "set_operators") for cn in so.call_nodes())
+        if propagated and same_syntax and all(nf.dominates(rb, b2) for b2, _ in derived) and rt.j.get("callee_name") == "with_options":
+            ok = True
+        else:
+            why += "; the one at %s is %s" % (prim.site(nf, rb), "not propagated" if not propagated else "not before the derived compile / not in the selected syntax")
+    ctx.ob(rule, "regex-operand-validated-as-written", ok,
+           "RegexMatcher::new hands a derived pattern to the engine (%s) with %s; a wrapper can repair a malformed operand (`.*\\)\\(a` inside `\\(?:...\\)\\'` is balanced), "
+           "so the operand must be compiled as written in the selected syntax first and its error returned" % ([prim.origin_of_operand(nf, t.args[0]).fmt()[:60] for _, t in derived], why),
+           fn=nf, where=prim.site(nf, derived[0][0]), how="compile sites + dominance + `?` propagation")
